@@ -1,6 +1,6 @@
 (** C11 — green threads: property theorems only (model: C11/Model.v, repaired scheduler). *)
 From Coq Require Import ZArith List.
-From ChibiV Require Import C11.Model C11.Invariant C11.SchedProofs C11.Theorems.
+From ChibiV Require Import C11.Model C11.Invariant C11.SchedProofs C11.Theorems C11.Round2 C11.Sorted.
 Import ListNotations.
 
 Theorem queues_wellformed : forall s, reachable s ->
@@ -56,3 +56,64 @@ Theorem queues_wellformed_pinned_refuted :
   exists s tr, run false init pinned_witness = Some (s, tr) /\ front s = [O; O] /\ ~ NoDup (front s).
 Proof. exact queues_wellformed_pinned_refuted_thm. Qed.
 Print Assumptions queues_wellformed_pinned_refuted.
+
+(* ---- round 2 ---- *)
+
+Theorem broadcast_wakes_all : forall s c,
+  let s' := fst (condvar_broadcast s c) in
+  (forall t, In t (paused s) -> ev (th s t) = ECond c ->
+     In t (front s') /\ ~ In t (paused s') /\ waitp (th s' t) = false /\ timeoutp (th s' t) = false) /\
+  paused s' = filter (fun y => negb (event_eqb (ev (th s y)) (ECond c))) (paused s) /\
+  (forall x, In x (front s) -> In x (front s')) /\
+  (forall x, ev (th s x) <> ECond c -> th s' x = th s x) /\
+  cur s' = cur s /\ mx s' = mx s.
+Proof. exact broadcast_wakes_all_thm. Qed.
+Print Assumptions broadcast_wakes_all.
+
+Theorem join_wakes_all_joiners : forall s, back s = last_opt (front s) ->
+  let isj := fun y => event_eqb (ev (th s y)) (EThread (cur s)) in
+  let s' := wake_joiners s in
+  front s' = front s ++ filter isj (paused s) /\
+  paused s' = filter (fun y => negb (isj y)) (paused s) /\
+  (forall t, In t (paused s) -> ev (th s t) = EThread (cur s) ->
+     In t (front s') /\ ~ In t (paused s') /\ waitp (th s' t) = false /\ timeoutp (th s' t) = false) /\
+  (forall x, ev (th s x) <> EThread (cur s) -> th s' x = th s x).
+Proof. exact join_wakes_all_joiners_thm. Qed.
+Print Assumptions join_wakes_all_joiners.
+
+Theorem joiner_runnable_after_exit : forall s n1 n2 t, inv s -> live (th s (cur s)) = false ->
+  In t (paused s) -> ev (th s t) = EThread (cur s) ->
+  let s' := scheduler true s n1 n2 in
+  (t = cur s' \/ In t (front s')) /\ waitp (th s' t) = false.
+Proof. exact joiner_runnable_after_exit_thm. Qed.
+Print Assumptions joiner_runnable_after_exit.
+
+Theorem join_terminated_returns : forall s t tmo now, live (th s t) = false -> thread_join s t tmo now = (s, true).
+Proof. exact join_terminated_returns_thm. Qed.
+Print Assumptions join_terminated_returns.
+
+Theorem round_robin_fair : forall pre clocks s t post,
+  paused s = [] -> front s = pre ++ t :: post -> length clocks = S (length pre) ->
+  (forall x, x = cur s \/ In x (front s) -> live (th s x) = true /\ waitp (th s x) = false) ->
+  cur (sched_calls clocks s) = t.
+Proof. exact round_robin_fair_thm. Qed.
+Print Assumptions round_robin_fair.
+
+Theorem mutex_exclusion : forall ops s tr, run true init ops = Some (s, tr) ->
+  (forall m, locked (mx s m) = true <-> exists t, held (fun _ => None) tr m = Some t) /\
+  (forall tr1 t m tmo now o tr2, tr = tr1 ++ (t, OLock m tmo now o, true) :: tr2 ->
+     held (fun _ => None) tr1 m = None).
+Proof. exact mutex_exclusion_thm. Qed.
+Print Assumptions mutex_exclusion.
+
+Theorem paused_sorted : forall ops s tr, Forall op_clock_ok ops -> run true init ops = Some (s, tr) ->
+  psorted (th s) (paused s) /\ forall x, wf_time (th s x).
+Proof. exact paused_sorted_thm. Qed.
+Print Assumptions paused_sorted.
+
+Theorem timed_wait_bounded : forall s n1 n2 t, inv s -> tinv s -> In t (paused s) ->
+  before (th s t) (fst n1) (snd n1) = true ->
+  let s' := scheduler true s n1 n2 in
+  (t = cur s' \/ In t (front s')) /\ waitp (th s' t) = false.
+Proof. exact timed_wait_bounded_thm. Qed.
+Print Assumptions timed_wait_bounded.
